@@ -47,6 +47,15 @@ Seeds == <<
              [n |-> "Cp",   kind |-> "type", ty |-> O(<<Prop("kind", LS("circle"), FALSE), Prop("r", TNumber, FALSE)>>)],
              [n |-> "Sq",   kind |-> "type", ty |-> O(<<Prop("kind", LS("sq"), FALSE), Prop("s", TNumber, FALSE)>>)]>>,
    ty |-> Uni(<<Inter(<<Ref("Base"), Ref("Cp")>>), Ref("Sq")>>)],
+  \* two levels of tags: two variants share a value of the first discriminator
+  [env |-> <<>>, ty |-> Uni(<<O(<<Prop("kind", LS("text"), FALSE), Prop("format", LS("plain"), FALSE), Prop("a", TString, FALSE)>>),
+                              O(<<Prop("kind", LS("text"), FALSE), Prop("format", LS("html"), FALSE), Prop("b", TNumber, FALSE)>>),
+                              O(<<Prop("kind", LS("img"), FALSE), Prop("c", TString, FALSE)>>)>>)],
+  \* a generic whose body refers to an interface that mentions a declared type named like the generic's parameter
+  [env |-> <<[n |-> "X", kind |-> "type", ty |-> TNumber],
+             [n |-> "InI", kind |-> "interface", ty |-> O(<<Prop("x", Ref("X"), FALSE)>>)],
+             [n |-> "W2", kind |-> "type", params |-> <<"X">>, ty |-> O(<<Prop("c", Ref("InI"), FALSE), Prop("d", Param("X"), FALSE)>>)]>>,
+   ty |-> App("W2", <<TString>>)],
   \* intersection members that declare the same key with the same type but different optionality
   [env |-> <<>>, ty |-> Inter(<<O(<<Prop("id", TString, FALSE), Prop("note", TString, FALSE)>>),
                                 O(<<Prop("note", TString, TRUE), Prop("tag", TNumber, FALSE)>>)>>)]
@@ -144,6 +153,7 @@ AtPosition == \E x \in RW(ty, env) :
 
 InDecl == \E i \in DOMAIN env : \E x \in RW(env[i].ty, env) :
             /\ "params" \notin DOMAIN env[i]
+            /\ (env[i].kind = "interface" => x.ty.t = "obj")       \* an interface body stays an object literal
             /\ env' = [env EXCEPT ![i].ty = x.ty] \o x.add /\ ty' = ty /\ rule' = x.r \o "@decl"
 
 RenameAlias == \E i \in DOMAIN env :
